@@ -27,6 +27,21 @@ CLAIMED = {
             "Trusted: alignment reference (~40 lines)."),
 }
 
+CLAIMED.update({
+    "C02": ("trk", "exploration",
+            "A PathTpc is grown over generated networks by a seeded history of extend calls (every way of partitioning the route, empty extensions, reload of the half-built path in yaml/bincode/json between two extensions); after every extension the enforced profile is compared, at the midpoint of every interval between breakpoints and at every breakpoint from the right, with the pointwise minimum of the restrictions read from the network (tail-end extension by train length, gating by train parameters, per-train-type sets re-implemented independently). Operation history only: there is no fault in this property beyond the reload (DESIGN 5).",
+            "Trusted: the pointwise-minimum reference (~60 lines); exact comparison (the code only copies and compares speeds)."),
+    "C13": ("trk", "exploration",
+            "Same runs as C02 with equality instead of <=, plus canonical form (sorted, no equal-valued neighbours, first point at the path start); generator dense in restrictions nested inside another's extent, ending between two existing points, zero-length and duplicate-bound restrictions. Operation history only (DESIGN 5).",
+            "Trusted: as C02; a restriction covers [start, end)."),
+    "C06": ("trk", "exploration",
+            "Differential, bit-exact: every seeded partition of a route into extend calls (with empty extensions and yaml/bincode reloads in between) yields a PathTpc equal to the one-call build; reference: link points at cumulative lengths, elevation at every breakpoint and 3 interior positions per segment equal to the walk over the route's own elevation points, grades = slopes, cumulative curve resistance = documented three-branch formula, catenary limits shifted, count bookkeeping; non-contiguous / unreal extensions must be refused; panics are violations. Operation history only (DESIGN 5).",
+            "Trusted: geometry reference (~120 lines), 1e-9 relative; nothing is promised about a path after a refused extension."),
+    "C16": ("val", "fault_enumeration",
+            "For every generated valid network every rule of the statement is broken in isolation at every link where that is expressible (58 rule-breaking kinds incl. out-of-range references, NaN / negative / zero values), 10 rule-keeping edits are applied the same way, and the verdict of validate() - and on a seeded sample of from_yaml / from_json / from_reader under short reads, EINTR, hard errors and early EOF / from_file on real files / from_file on a hand-written legacy layout - is compared with an independent reference validator (accepted <=> consistent); a panic is a violation and does not stop the enumeration.",
+            "Trusted: reference validator (~170 lines) and its reading of 'well-formed and non-overlapping' (DESIGN C16); the reference is itself checked against each mutation's label and a disagreement is a harness error, not a verdict."),
+})
+
 NOT_YET = {
     "C02": "check not built yet (planned in world trk, DESIGN 4)",
     "C03": "check not built yet (planned in world trn, DESIGN 4)",
